@@ -1528,3 +1528,168 @@ Proof.
          (w_target [98] [ {| fr_paths := [p_out_sub]; fr_exts := Some [b_dot_o] |} ]).
   split; [reflexivity|]. split; [reflexivity|]. vm_compute. discriminate.
 Qed.
+
+(* ================================================================ where a listed path lives *)
+(* descending from a directory through real directories never needs the symlink budget *)
+Lemma resolve_comps_descend t : forall names n q,
+  kind_at t q = Some KDir -> get t (q ++ names) <> None ->
+  Forall (fun nm => valid_entry_name nm = true) names ->
+  resolve_comps n t q names false = RFound (q ++ names).
+Proof.
+  induction names as [|nm r IH]; intros n q Hq Hg Hv; [now rewrite resolve_comps_nil, app_nil_r|].
+  inversion Hv as [|? ? Hnm Hr]; subst. destruct (valid_entry_name_facts _ Hnm) as (_ & _ & Hd & Hdd).
+  rewrite resolve_comps_cons.
+  destruct (beq nm dot1) eqn:E1; [apply beq_eq in E1; unfold dot1 in E1; congruence|].
+  destruct (beq nm dotdot) eqn:E2; [apply beq_eq in E2; congruence|].
+  assert (Hg' : get t ((q ++ [nm]) ++ r) <> None) by now rewrite <- app_assoc.
+  destruct r as [|nm2 r'].
+  - rewrite app_nil_r in Hg'. destruct (kind_at t (q ++ [nm])) as [[c m| |tg]|] eqn:Ek.
+    + reflexivity.
+    + now rewrite resolve_comps_nil.
+    + reflexivity.
+    + apply kind_at_none in Ek. congruence.
+  - rewrite (kind_at_below_is_dir t (q ++ [nm]) (nm2 :: r')); [| discriminate | intros H; apply kind_at_none in H; congruence].
+    rewrite (IH n (q ++ [nm])); [now rewrite <- app_assoc | | exact Hg' | exact Hr].
+    apply (kind_at_below_is_dir t (q ++ [nm]) (nm2 :: r')); [discriminate | intros H; apply kind_at_none in H; congruence].
+Qed.
+
+(* resolving cs1 (following) to a directory q, then cs2 from q: the same as resolving cs1 ++ cs2, when the second part
+   does not depend on the remaining symlink budget *)
+Lemma resolve_comps_compose t cs2 f R :
+  cs2 <> [] -> forall n cs1 cur q,
+  resolve_comps n t cur cs1 true = RFound q -> kind_at t q = Some KDir ->
+  (forall n', resolve_comps n' t q cs2 f = R) ->
+  resolve_comps n t cur (cs1 ++ cs2) f = R.
+Proof.
+  intros Hne. induction n as [|n IHn].
+  - induction cs1 as [|c r IH]; intros cur q; [rewrite resolve_comps_nil; intros [= <-] _ H; apply H|].
+    cbn [app]. rewrite !resolve_comps_cons.
+    destruct (beq c dot1); [apply IH|]. destruct (beq c dotdot); [apply IH|].
+    destruct (kind_at t (cur ++ [c])) as [[cc m| |tg]|] eqn:Ek; [| apply IH | | discriminate].
+    + destruct r; [|discriminate]. cbn [is_nil]. intros [= <-] Hq. congruence.
+    + rewrite andb_false_r. assert (is_nil (r ++ cs2) = false) as -> by (destruct r; [now destruct cs2 | reflexivity]).
+      cbn [andb]. destruct (is_nil tg); discriminate.
+  - induction cs1 as [|c r IH]; intros cur q; [rewrite resolve_comps_nil; intros [= <-] _ H; apply H|].
+    cbn [app]. rewrite !resolve_comps_cons.
+    destruct (beq c dot1); [apply IH|]. destruct (beq c dotdot); [apply IH|].
+    destruct (kind_at t (cur ++ [c])) as [[cc m| |tg]|] eqn:Ek; [| apply IH | | discriminate].
+    + destruct r; [|discriminate]. cbn [is_nil]. intros [= <-] Hq. congruence.
+    + rewrite andb_false_r. assert (is_nil (r ++ cs2) = false) as -> by (destruct r; [now destruct cs2 | reflexivity]).
+      cbn [andb]. destruct (is_nil tg); [discriminate|]. rewrite app_assoc. apply IHn.
+Qed.
+
+(* a trailing "." (trailing slash) does not change where a followed resolution ends *)
+Lemma resolve_comps_drop_dot t : forall n cs cur q,
+  resolve_comps n t cur (cs ++ [dot1]) true = RFound q -> resolve_comps n t cur cs true = RFound q.
+Proof.
+  induction n as [|n IHn].
+  - induction cs as [|c r IH]; intros cur q.
+    + cbn [app]. rewrite resolve_comps_cons, beq_refl, !resolve_comps_nil. tauto.
+    + cbn [app]. rewrite !resolve_comps_cons.
+      destruct (beq c dot1); [apply IH|]. destruct (beq c dotdot); [apply IH|].
+      destruct (kind_at t (cur ++ [c])) as [[cc m| |tg]|]; [| apply IH | | discriminate].
+      * assert (is_nil (r ++ [dot1]) = false) as -> by (destruct r; reflexivity). discriminate.
+      * rewrite !andb_false_r. destruct (is_nil tg); discriminate.
+  - induction cs as [|c r IH]; intros cur q.
+    + cbn [app]. rewrite resolve_comps_cons, beq_refl, !resolve_comps_nil. tauto.
+    + cbn [app]. rewrite !resolve_comps_cons.
+      destruct (beq c dot1); [apply IH|]. destruct (beq c dotdot); [apply IH|].
+      destruct (kind_at t (cur ++ [c])) as [[cc m| |tg]|]; [| apply IH | | discriminate].
+      * assert (is_nil (r ++ [dot1]) = false) as -> by (destruct r; reflexivity). discriminate.
+      * rewrite !andb_false_r. destruct (is_nil tg); [discriminate|]. rewrite app_assoc. apply IHn.
+Qed.
+
+Lemma resolve_segs t root qd :
+  resolve t root true = RFound qd -> resolve_comps max_links t [] (segs root) true = RFound qd.
+Proof.
+  unfold resolve, path_comps. destruct (is_nil root); [discriminate|].
+  destruct (ends_slash root && negb (is_nil (segs root))); [apply resolve_comps_drop_dot | tauto].
+Qed.
+
+Lemma segs_valid_name nm : valid_entry_name nm = true -> segs nm = [nm].
+Proof.
+  intros Hv. destruct (valid_entry_name_facts _ Hv) as (H1 & H2 & _ & _).
+  unfold segs. rewrite split_on_no_sep by exact H2. cbn [filter]. destruct nm; [congruence | reflexivity].
+Qed.
+
+Lemma ends_slash_join root nm : valid_entry_name nm = true -> ends_slash (join root nm) = false.
+Proof.
+  intros Hv. destruct (valid_entry_name_facts _ Hv) as (H1 & H2 & _ & _).
+  destruct (join_cases root nm) as [[-> ->]|[[r' [-> ->]]|[_ ->]]].
+  - now apply ends_slash_no_slash.
+  - rewrite ends_slash_app by discriminate. change (slash :: nm) with ([slash] ++ nm).
+    rewrite ends_slash_app by exact H1. now apply ends_slash_no_slash.
+  - rewrite ends_slash_app by discriminate. change (slash :: nm) with ([slash] ++ nm).
+    rewrite ends_slash_app by exact H1. now apply ends_slash_no_slash.
+Qed.
+
+Lemma path_comps_joins root names :
+  names <> [] -> Forall (fun nm => valid_entry_name nm = true) names ->
+  path_comps (joins root names) = segs root ++ names /\ is_nil (joins root names) = false.
+Proof.
+  intros Hne Hv. destruct (exists_last Hne) as [ns [nm ->]].
+  assert (Hnm : valid_entry_name nm = true) by (rewrite Forall_forall in Hv; apply Hv, in_or_app; right; now left).
+  assert (Hseg : forall l r0, Forall (fun nm => valid_entry_name nm = true) l -> segs (joins r0 l) = segs r0 ++ l).
+  { induction l as [|x l IH]; intros r0 Hl; [now rewrite app_nil_r|]. inversion Hl as [|? ? Hx Hl']; subst.
+    change (joins r0 (x :: l)) with (joins (join r0 x) l). rewrite (IH _ Hl').
+    rewrite segs_join, (segs_valid_name x Hx). now rewrite <- app_assoc. }
+  rewrite joins_snoc. split.
+  - unfold path_comps. rewrite ends_slash_join by exact Hnm. cbn [andb].
+    rewrite <- joins_snoc. now apply Hseg.
+  - destruct (valid_entry_name_facts _ Hnm) as (H1 & _).
+    destruct (join_cases (joins root ns) nm) as [[_ ->]|[[r' [_ ->]]|[_ ->]]].
+    + destruct nm; [congruence | reflexivity].
+    + destruct r'; reflexivity.
+    + destruct (joins root ns); reflexivity.
+Qed.
+
+(* the entry named by a path the walk produced below the declared path is the physical node the walk found:
+   root's directory qd (the root alone may have been reached through symlinks) extended by the names of the descent *)
+Lemma lstat_joins t root qd names n :
+  wf t = true -> stat t root = Some (qd, KDir) -> names <> [] -> get t (qd ++ names) = Some n ->
+  lstat t (joins root names) = Some (qd ++ names, shallow n).
+Proof.
+  intros Hw Hs Hne Hg.
+  destruct (wf_get _ _ _ Hw Hg) as [_ Hv]. apply Forall_app_r in Hv.
+  destruct (path_comps_joins root names Hne Hv) as [Hpc Hnil].
+  pose proof (stat_gen_kind _ _ _ _ _ Hs) as Hk. apply stat_gen_resolve, resolve_segs in Hs.
+  unfold lstat, stat_gen, resolve. rewrite Hnil, Hpc.
+  rewrite (resolve_comps_compose t names false (RFound (qd ++ names)) Hne _ _ _ _ Hs Hk).
+  - unfold kind_at. now rewrite Hg.
+  - intros n'. apply resolve_comps_descend; [exact Hk | congruence | exact Hv].
+Qed.
+
+(* a directory that is not a symlink: lstat and stat agree (used for a declared path that is a real directory) *)
+Lemma reached_entry_location t root p :
+  wf t = true -> Reached t root p -> p <> root ->
+  exists qd names n, stat t root = Some (qd, KDir) /\ names <> [] /\ NoZinoma names /\
+                     get t (qd ++ names) = Some n /\ p = joins root names /\
+                     lstat t p = Some (qd ++ names, shallow n).
+Proof.
+  intros Hw [q [k [Hl H]]] Hp. destruct H as [[-> _]|[qd [names (Hne & Hb & Hg & Hz & ->)]]]; [congruence|].
+  destruct (get t (qd ++ names)) as [n|] eqn:Eg; [|congruence].
+  assert (Hs : stat t root = Some (qd, KDir)).
+  { destruct Hb as [(-> & -> & _)|[_ Hs]]; [|exact Hs].
+    apply (lstat_nonlink_stat _ _ _ _ Hl). intros tg. discriminate. }
+  exists qd, names, n. repeat split; try assumption. now apply lstat_joins.
+Qed.
+
+(* extension-filtered clean, physically: every removed location is either the entry of a declared path itself or lies,
+   through real directories only, below the directory a declared path denotes (qd ++ names); it held a regular file or a
+   symlink, and no name on the way is ".zinoma" *)
+Lemma clean_resource_ext_physical t r es :
+  wf t = true -> fr_exts r = Some es ->
+  forall q, removed t (fst (clean_resource t r)) q ->
+  exists root, In root (fr_paths r) /\
+    ((exists k, lstat t root = Some (q, k) /\ k <> KDir) \/
+     (exists qd names, stat t root = Some (qd, KDir) /\ names <> [] /\ NoZinoma names /\ q = qd ++ names /\
+                       kind_at t q <> Some KDir)).
+Proof.
+  intros Hw He q Hq. destruct (clean_resource_ext_entries t r es Hw He q Hq) as [p [e [k (Hin & Hl & Hk & ->)]]].
+  apply (listing_spec t r p Hw) in Hin as [root (Hr & Hre & _ & _)]. exists root. split; [exact Hr|].
+  destruct (list_eq_dec N.eq_dec p root) as [->|Hne].
+  - left. now exists k.
+  - right. destruct (reached_entry_location t root p Hw Hre Hne) as [qd [names [n (Hs & Hnn & Hz & Hg & _ & Hl')]]].
+    unfold lstat in *. rewrite Hl in Hl'. injection Hl' as -> ->. exists qd, names. repeat split; try assumption.
+    unfold kind_at. rewrite Hg. congruence.
+Qed.
